@@ -303,7 +303,7 @@ static std::vector<int32_t> lengthValues(size_t size)
     std::vector<int32_t> v;
     for (size_t k = 0; k <= size + 2; ++k)
         v.push_back(static_cast<int32_t>(k));
-    for (int32_t x : {0x7F, 0x80, 0xFF, 0x100, 0xFFFE, 0xFFFF})
+    for (int32_t x : {0x7F, 0x80, 0xFF, 0x100, 0x7FFF, 0x8000, 0xFFDC, 0xFFE6, 0xFFF0, 0xFFF8, 0xFFF9, 0xFFFA, 0xFFFB, 0xFFFC, 0xFFFD, 0xFFFE, 0xFFFF})
         v.push_back(x);
     return v;
 }
@@ -468,7 +468,8 @@ static rc::Gen<Case> genCase(int tier)
                  {3, range<int32_t>(0, 8)},
                  {4, range<int32_t>(0, static_cast<int32_t>(std::max<long>(0, std::min<long>(left, 65535))))},
                  {2, rc::gen::map(range<int32_t>(-2, 2), [left](int32_t d) { return static_cast<int32_t>(std::max<long>(0, std::min<long>(65535, left + d))); })},
-                 {1, rc::gen::element<int32_t>(0x7F, 0x80, 0xFF, 0xFFFF, 0xFFFE)}});
+                 {1, rc::gen::element<int32_t>(0x7F, 0x80, 0xFF, 0xFFFF, 0xFFFE)},
+                 {1, range<int32_t>(0xFFC0, 0xFFFF)}});
             c.vals.push_back(v);
             if (v > 0)
                 used += static_cast<size_t>(v) + 2;
